@@ -86,3 +86,46 @@ def run(cls, p):
     if len(scales) != nscale:
         raise SymbolicError(f'{len(scales)} distinct sqrt scales for p={p}, expected {nscale}')
     return dim, nv, basis, dict(scales), probe
+
+
+def run_bdm1():
+    """ElementTriBDM1: the module constants s_1, s_2 = .5 -+ sqrt(3)/6 are re-evaluated from the module's source with
+    np.sqrt(3) replaced by the indeterminate s (variable index 2) and arithmetic in Q(s)/(s^2 - 3); the REAL lbasis then
+    runs with those two globals replaced.  Returns (dim, nv, basis, scales, element)."""
+    import ast
+    import inspect
+    from skfem.element.element_tri import element_tri_bdm1 as mod
+    cls = mod.ElementTriBDM1
+    dim, nv = 2, 3
+    tree = ast.parse(inspect.getsource(mod))
+    consts = {}
+
+    class Shim:
+        def sqrt(self, v):
+            if v != 3:
+                raise SymbolicError(f'sqrt({v!r}) at module level')
+            return Poly.var(2, nv)
+    old = Poly.SQRT
+    Poly.SQRT = (2, 3)
+    try:
+        for node in tree.body:
+            if isinstance(node, ast.Assign) and len(node.targets) == 1 and isinstance(node.targets[0], ast.Name) \
+                    and node.targets[0].id in ('s_1', 's_2'):
+                consts[node.targets[0].id] = eval(compile(ast.Expression(node.value), '<bdm1>', 'eval'), {'np': Shim()})
+        if set(consts) != {'s_1', 's_2'} or not all(isinstance(v, Poly) for v in consts.values()):
+            raise SymbolicError('module constants s_1, s_2 not found as expressions in sqrt(3)')
+        f = cls.lbasis
+        g = dict(f.__globals__)
+        g.update(consts)
+        e = cls()
+        lb = types.FunctionType(f.__code__, g, f.__name__, f.__defaults__, f.__closure__)
+        basis = []
+        for i in range(int(sum(e._bfun_counts()))):
+            X = np.empty((dim, 1), dtype=object)
+            for k in range(dim):
+                X[k, 0] = Poly.var(k, nv)
+            res = lb(e, X, i)
+            basis.append((to_poly_tree(res[0], nv), to_poly_tree(res[1], nv)))
+    finally:
+        Poly.SQRT = old
+    return dim, nv, basis, {3.0: 2}, e
